@@ -164,7 +164,7 @@ impl Monitor for C18 {
         }
     }
     fn rule(&self) -> &'static str {
-        "states_*: one case per chunk of seeds s; create(s) + one draw visits generator state 48271*s mod m (a bijection on [1,m-1]); per state: generate() over a 12-pair (min,max) panel (incl. two intervals whose width overflows f32) must be finite and in [min,max], shuffle(len 1) and shuffle(len 2..6) must return a permutation without panicking, states whose unit draw is >= 0.999999 are swept over every len 1..200; distinct = number of distinct states visited. seeds: seed classes (0, 1, small, around m, multiples of m, 2^32, >3.8e14, u64::MAX, timestamps) x lengths 0..200: no panic, permutation, purity. clock: Tensor::random's possible clock seeds (subsec_micros in [0,1e6)) replayed through Generator for 256 draws. tensor_random: Tensor::random itself for every rank."
+        "states_*: one case per chunk of seeds s; create(s) + one draw visits generator state 48271*s mod m (a bijection on [1,m-1]); per state: generate() over a 12-pair (min,max) panel (incl. two intervals whose width overflows f32) must be finite and in [min,max], shuffle(len 1) and shuffle(len 2..6) must return a permutation without panicking, states whose unit draw is >= 0.999999 are swept over every len 1..200; distinct = number of distinct states visited. seeds: seed classes (0, 1, small, around m, multiples of m, 2^32, >3.8e14, u64::MAX, timestamps) x lengths 0..200: no panic, permutation, purity (same seed twice; same seed while a second generator draws and shuffles in between). clock: Tensor::random's possible clock seeds (subsec_micros in [0,1e6)) replayed through Generator for 256 draws. tensor_random: Tensor::random itself for every rank."
     }
     fn assumptions(&self) -> Vec<&'static str> {
         vec![
@@ -226,6 +226,33 @@ impl Monitor for C18 {
                         if !sigs.contains(&sig) {
                             out.viol(&sig, format!("seed {}: generate panicked: {}", s, short(&m, 160)), J::Null);
                         }
+                    }
+                }
+                // the sequence depends on the seed only: not on other generators being used in
+                // between (no state shared between instances)
+                let s2 = s.wrapping_mul(0x9E3779B97F4A7C15).wrapping_add(idx) % 1_000_000_007;
+                let alone = guard(|| {
+                    let mut a = Generator::create(s);
+                    (0..32).map(|_| a.generate(-1.0, 1.0).to_bits()).collect::<Vec<u32>>()
+                });
+                let mixed = guard(|| {
+                    let mut a = Generator::create(s);
+                    let mut c = Generator::create(s2);
+                    let mut v: Vec<usize> = (0..7).collect();
+                    (0..32)
+                        .map(|i| {
+                            let _ = c.generate(0.0, 5.0);
+                            if i % 3 == 0 {
+                                c.shuffle(&mut v);
+                            }
+                            a.generate(-1.0, 1.0).to_bits()
+                        })
+                        .collect::<Vec<u32>>()
+                });
+                if let (Ok(x), Ok(y)) = (&alone, &mixed) {
+                    out.count("interleaved_generator_pairs", 1);
+                    if x != y {
+                        out.viol("generate:not-pure:interleaved", format!("seed {}: the draws change when another generator (seed {}) is used in between", s, s2), J::Null);
                     }
                 }
                 out.count("shuffle_lengths_tried", lens);
